@@ -61,10 +61,12 @@ PROPS["C04"] = {
         H("h_c04_step", {"CALLS": 1}, {"CALLS": 2},
           shards={"quick": C04_SHARDS, "thorough": C04_SHARDS},
           budget=(900, 300), partial=("thorough",)),
+        H("h_c04_xmlid", shards={"quick": shard_choose("op", 5), "thorough": shard_choose("op", 5)}),
     ],
     "panic_ok": ["h_c04_step"],
     "bounds": {"quick": "7 start forests (5-8 nodes, all text-like contents symbolic) plus forest 0 with adjacent text nodes (consolidation switched off and on again), 1 call drawn from 34 operations with "
-                        "every tuple of live nodes as arguments",
+                        "every tuple of live nodes as arguments; a parsed document with two xml:id elements x 5 removing / replacing calls "
+                        "x 4 targets: xml_id_node returns nothing or a live node",
                "thorough": "same forests, sequences of 2 calls: each of the 112 shards explores 2-call sequences for 300 s in a "
                     "VERIF_SEED-dependent order (the space is not exhausted; evidence lists the shards as partial)"},
     "outside": "histories longer than 2 calls; forests other than the catalogue",
@@ -99,10 +101,10 @@ PROPS["C13"] = {
     "claim": "deep_equal / deep_equal_xpath / deep_equal_children / advanced_deep_equal / shallow_equal(_ignore_attributes) / "
              "string_value agree with a canonical-form oracle computed from the read-back, for all contents",
     "harnesses": [H("h_c13_deep_equal", shards={"quick": shard_product(("shape", 4), ("va", 2)), "thorough": shard_product(("shape", 4), ("va", 2))}),
-                  H("h_c13_shallow", shards={"quick": shard_choose("vb", 7), "thorough": shard_choose("vb", 7)}),
+                  H("h_c13_shallow", shards={"quick": shard_product(("vb", 7), ("strip", 4)), "thorough": shard_product(("vb", 7), ("strip", 4))}),
                   H("h_c13_leaves", shards={"quick": shard_choose("ka", 11), "thorough": shard_choose("ka", 11)})],
     "bounds": {"quick": "pairs (base subtree of 4 shapes x 2, one-feature variant out of 13) with every attribute value / text / "
-                        "comment / PI content symbolic (1 char each); 6 ignore lists incl. repeated and absent names; every pair of 11 kinds of single leaf node (text, comment, PI with / without data and two targets, attribute nodes, namespace nodes) with symbolic contents",
+                        "comment / PI content symbolic (1 char each); 8 ignore lists incl. repeated and absent names x 4 ways of stripping the attributes of either element (attribute sets of different sizes, none at all); every pair of 11 kinds of single leaf node (text, comment, PI with / without data and two targets, attribute nodes, namespace nodes) with symbolic contents",
                "thorough": "same"},
     "outside": "subtrees larger than 5 nodes; contents longer than one character; triples (transitivity follows from the "
                "canonical-form equivalence that is asserted pairwise)",
@@ -157,22 +159,31 @@ PROPS["C02"] = {
              "parse_fragment vs wrapped parse",
     "harnesses": [
         H("h_c02_content_kernel", {"N": 3}, {"N": 5}, shards={"quick": shard_choose("len", 4), "thorough": shard_choose("len", 6)}),
-        H("h_c02_text", shards={"quick": shard_choose("k1", 7), "thorough": shard_choose("k1", 7)}),
+        H("h_c02_text", shards={"quick": shard_choose("k1", 9), "thorough": shard_choose("k1", 9)}),
         H("h_c02_attr", shards={"quick": shard_choose("k1", 6), "thorough": shard_choose("k1", 6)}),
         H("h_c02_names", shards={"quick": shard_choose("c0", 8), "thorough": shard_choose("c0", 8)}),
         H("h_c02_fragment", shards={"quick": shard_choose("k", 8), "thorough": shard_choose("k", 8)}),
-        H("h_c02_xmlid", {"N": 3}, {"N": 4}, shards={"quick": shard_choose("len", 4), "thorough": shard_choose("len", 5)}),
+        H("h_c02_xmlid", {"N": 3}, {"N": 4}, shards={"quick": shard_choose("len", 5), "thorough": shard_choose("len", 6)}),
+        H("h_c02_bytes", shards={"quick": shard_choose("label", 6), "thorough": shard_choose("label", 6)}),
         # shared with C03: namespace scoping between top-level siblings of a fragment; character references by value
         H("h_c03_fragment_scope", shards={"quick": shard_choose("shape", 3), "thorough": shard_choose("shape", 3)}),
         H("h_c03_charref_value", {"DIGITS": 5}, {"DIGITS": 6}, shards={"quick": CHARREF_SHARDS(5), "thorough": CHARREF_SHARDS(6)}),
     ],
     "bounds": {"quick": "character-data spellings of <=3 arbitrary chars at the kernel; two-piece spellings (literal char, entity, "
                         "char reference, CR LF, CDATA) end to end in text and in both quote styles of attributes; 8x8 declaration "
-                        "layouts x 3 element prefixes x 3 attribute prefixes; 8 fragment templates; xml:id values of <=3 chars",
+                        "layouts x 3 element prefixes x 3 attribute prefixes; 8 fragment templates; xml:id values of <=3 chars and the "
+                        "template p??q?r (several internal space runs); CDATA pieces with CR / CR LF / empty content; parse_bytes "
+                        "of 6 declarations (none, UTF-8, ISO-8859-1, windows-1252, us-ascii, iso-8859-1 + standalone) x 5 "
+                        "non-ASCII byte sequences + one arbitrary ASCII byte against a reference windows-1252 / UTF-8 decoder",
                "thorough": "<=5 chars at the kernel, xml:id <=4"},
-    "outside": "parse_bytes / encodings / BOM / XML declaration (encoding_rs and xhtmlchardet tables are not encoded); documents "
+    "outside": "parse_bytes with symbolic non-ASCII bytes, UTF-16 / BOM-switched and multi-byte legacy encodings; documents "
                "longer than the templates",
-    "assumptions": ["the xmlparser 0.13.6 tokenizer is interpreted from its MIR like xot itself, not modelled"],
+    "assumptions": ["the xmlparser 0.13.6 tokenizer is interpreted from its MIR like xot itself, not modelled",
+                    "parse_bytes: xot::encoding, xhtmlchardet::detect and encoding_rs::Encoding::for_label are interpreted from "
+                    "their MIR; encoding_rs::Encoding::decode (SIMD / table code) is a value-level stub: UTF-8 (ill-formed parts -> "
+                    "U+FFFD), the WHATWG windows-1252 index, identity on ASCII for other ASCII-compatible encodings; anything "
+                    "else ends the path as unsupported (inconclusive, never a verdict); String::from_utf8_lossy, str::from_utf8, "
+                    "str::find, str::replace, str::to_lowercase (ASCII) are value-level summaries"],
 }
 
 PROPS["C03"] = {
@@ -184,14 +195,17 @@ PROPS["C03"] = {
         H("h_c03_fragment_scope", shards={"quick": shard_choose("shape", 3), "thorough": shard_choose("shape", 3)}),
         H("h_c03_charref_value", {"DIGITS": 5}, {"DIGITS": 6}, shards={"quick": CHARREF_SHARDS(5), "thorough": CHARREF_SHARDS(6)}),
         H("h_c03_total", {"N": 2}, {"N": 3}, shards={"quick": shard_product(("pre", 8), ("fragment", 2)), "thorough": shard_product(("pre", 8), ("fragment", 2))}),
+        H("h_c03_bytes", {"NB": 4}, {"NB": 4}, shards={"quick": shard_choose("len", 5), "thorough": shard_choose("len", 5)}),
     ],
     "bounds": {"quick": "character data of <=3 arbitrary chars with any base offset <=2^40; every sequence of 3 tag/text/comment "
                         "pieces in document and fragment mode (accepted ones must validate and round-trip); 12 ill-formedness "
-                        "templates; 8 markup prefixes followed by <=2 arbitrary ASCII chars for totality",
+                        "templates; 8 markup prefixes followed by <=2 arbitrary ASCII chars for totality; parse_bytes on every ASCII byte "
+                        "string of <=4 bytes (returns, and agrees with parse of the same text)",
                "thorough": "<=5 chars, 4 pieces, 3 free chars"},
-    "outside": "arbitrary byte sequences / parse_bytes (the unknown-encoding panic is documented in DESIGN but not reachable "
-               "here); inputs longer than the bounds",
-    "assumptions": [],
+    "outside": "byte sequences with symbolic non-ASCII bytes or longer than 4 bytes (the declared-encoding templates of C02's "
+               "h_c02_bytes also run panic-free); unknown encoding labels; inputs longer than the bounds",
+    "assumptions": ["h_c03_bytes: encoding_rs::Encoding::decode is a value-level stub (identity on ASCII); detection and label "
+                    "lookup are the real code"],
 }
 
 PROPS["C17"] = {
@@ -199,12 +213,14 @@ PROPS["C17"] = {
              "every ParseError span lies inside the source on char boundaries",
     "harnesses": [
         H("h_c17_spans", shards={"quick": shard_product(("group", 3), ("pad", 3), ("fragment", 2), ("lead", 2)), "thorough": shard_product(("group", 3), ("pad", 3), ("fragment", 2), ("lead", 2))}),
+        H("h_c17_spellings", shards={"quick": shard_product(("sv", 5), ("st", 5)), "thorough": shard_product(("sv", 5), ("st", 5), ("before", 2))}),
         H("h_c17_error_spans", shards={"quick": shard_choose("k", 11), "thorough": shard_choose("k", 11)}),
         H("h_c17_cdata_edges", shards={"quick": shard_choose("k", 4), "thorough": shard_choose("k", 4)}),
     ],
     "bounds": {"quick": "one document template containing every span kind (prefixed element, 2 attributes, text, comment, PI, "
                         "text+CDATA+text run, empty element), contents symbolic two at a time (1 char each), 3 offset shifts, parse and "
-                        "parse_fragment; 11 error templates x 3 shifts; text made of CDATA sections (content empty or one symbolic char) alone, first or last in its run", "thorough": "same"},
+                        "parse_fragment; attribute value and text spelled with an entity, character references, CR LF before / after a symbolic char "
+                        "(span = raw spelling, node = decoded value, neighbouring spans unaffected); 11 error templates x 3 shifts; text made of CDATA sections (content empty or one symbolic char) alone, first or last in its run", "thorough": "same"},
     "outside": "documents other than the templates",
     "assumptions": [],
 }
@@ -227,11 +243,11 @@ PROPS["C12"] = {
              "adds only in-scope bindings and the clone serialises whenever the source did; Xot::clone gives a store in which "
              "every handle and id denotes an equal node / name and which is independent under later mutation of either store",
     "harnesses": [H("h_c12_clone", shards={"quick": shard_product(("shape", 9), ("consolidate", 2)), "thorough": shard_product(("shape", 9), ("consolidate", 2))}),
-                  H("h_c12_clone_with_prefixes", shards={"quick": shard_choose("c0", 8), "thorough": shard_choose("c0", 8)}),
+                  H("h_c12_clone_with_prefixes", shards={"quick": shard_product(("c0", 8), ("fork", 3)), "thorough": shard_product(("c0", 8), ("fork", 3))}),
                   H("h_c12_xot_clone", shards={"quick": shard_choose("shape", 7), "thorough": shard_choose("shape", 7)})],
     "bounds": {"quick": "9 kinds of source node in an 11-node document (symbolic contents, adjacent text when consolidation was off), "
                         "consolidation on/off at clone time, one later mutation (3 kinds) of any node of either side; 8x8 declaration "
-                        "layouts x 3x3 element namespaces x 2 attribute namespaces for clone_with_prefixes; Xot::clone of the 7 start "
+                        "layouts x 3x3 element namespaces x 2 attribute namespaces x (no sibling / an earlier sibling that declares A / B itself) for clone_with_prefixes; Xot::clone of the 7 start "
                         "forests followed by one mutation (3 kinds) of any node in either store", "thorough": "same"},
     "outside": "longer mutation histories; hashing inside the cloned id tables (HashMap is summarised)",
     "assumptions": [],
@@ -270,10 +286,12 @@ PROPS["C10"] = {
              "in a new namespace) makes the tree serialisable without changing any name, attribute or content",
     "harnesses": [
         H("h_c10_names", {"SAMEINNER": 1}, {"SAMEINNER": 0}, shards={"quick": shard_product(("c0", 8), ("root", 2), ("ns0", 3)), "thorough": shard_product(("c0", 8), ("root", 2), ("c1", 8))}),
+        H("h_c10_loose", shards={"quick": shard_choose("what", 7), "thorough": shard_choose("what", 7)}),
         H("h_c10_missing_prefixes", {"CFG": 4, "NSK": 2}, {"CFG": 5, "NSK": 3}, shards={"quick": shard_product(("c0", 4), ("target", 4), ("c1", 4)), "thorough": shard_product(("c0", 5), ("target", 4), ("c1", 5))}, budget=(900, 3000)),
     ],
     "bounds": {"quick": "3-level element chains, 8x8 declaration layouts, element names in {none,A,B}^2 (quick: both inner elements in the same namespace; thorough ^3), attribute in {none,A}; "
-                        "create_missing_prefixes: 4x4 layouts, names in {none,A}^3, 4 call targets, two rounds",
+                        "create_missing_prefixes: 4x4 layouts, names in {none,A}^3, 4 call targets, two rounds; single unattached nodes of 7 kinds "
+                        "through the string, token and indented entry points with / without a CDATA request (returns; text comes back)",
                "thorough": "5x5 layouts and {none,A,B}^3 for create_missing_prefixes"},
     "outside": "fragments with several top-level elements; deeper trees",
     "assumptions": ["HashSet iteration order (which decides the generated prefix names) is modelled as insertion order"],
@@ -295,12 +313,12 @@ PROPS["C14"] = {
              "for all contents incl. ']' / '>' runs); indentation only adds whitespace-only text nodes and none inside mixed "
              "content, xml:space=preserve scope or suppressed elements",
     "harnesses": [
-        H("h_c14_cdata", {"N": 2}, {"N": 3, "SYMU": 0}, shards={"quick": shard_product(("len", 2), ("cdata", 3)), "thorough": shard_product(("len", 3), ("cdata", 3))}),
-        H("h_c14_gt", {"N": 2}, {"N": 4}, shards={"quick": shard_product(("len", 2), ("decl", 3)), "thorough": shard_product(("len", 4), ("decl", 3))}),
+        H("h_c14_cdata", {"N": 2}, {"N": 3, "SYMU": 0}, shards={"quick": shard_product(("len", 4), ("cdata", 3)), "thorough": shard_product(("len", 5), ("cdata", 3))}),
+        H("h_c14_gt", {"N": 2}, {"N": 4}, shards={"quick": shard_product(("len", 4), ("decl", 3)), "thorough": shard_product(("len", 6), ("decl", 3))}),
         H("h_c14_pretty", {"SYMT": 0}, {"SYMT": 1}, shards={"quick": shard_product(("xs_a", 3), ("xs_b", 3), ("mixed", 4)), "thorough": shard_product(("xs_a", 3), ("xs_b", 3), ("mixed", 4))}),
     ],
-    "bounds": {"quick": "CDATA: text of <=2 symbolic chars (+ ']]>' in a child) under 3 CDATA-element sets x unescaped_gt; unescaped_gt: "
-                        "<=2 symbolic chars x 3 declaration settings; indentation: a 5-element tree with xml:space none/preserve/"
+    "bounds": {"quick": "CDATA: text of <=2 symbolic chars, or c]]>c / c]c]> with c any XML Char (any UTF-8 width) (+ ']]>' in a child) under 3 CDATA-element sets x unescaped_gt; unescaped_gt: "
+                        "<=2 symbolic chars or the two ']]>' templates x 3 declaration settings; indentation: a 5-element tree with xml:space none/preserve/"
                         "default on 3 levels, a text child at 4 positions, 3 suppress lists, document and element",
                "thorough": "CDATA <=3, unescaped_gt <=4, symbolic text child in the indentation tree"},
     "outside": "doctype output; normalizers; longer runs of ']' and '>' than the bound",
@@ -349,7 +367,7 @@ PROPS["C19"] = {
 }
 
 PROPS["DBG"] = {
-    "claim": "debug probes", "harnesses": [H("h_probe_tree"), H("h_probe_tostring"), H("h_probe_parse"), H("h_probe_html")],
+    "claim": "debug probes", "harnesses": [H("h_probe_tree"), H("h_probe_tostring"), H("h_probe_parse"), H("h_probe_html"), H("h_probe_bytes")],
     "bounds": {"quick": "-", "thorough": "-"}, "outside": "", "assumptions": [],
 }
 
